@@ -127,7 +127,9 @@ AcctSeqs(L) == { << [op |-> "create350", login |-> L, new |-> <<>>] >>,
                  << [op |-> "create350", login |-> L, new |-> <<>>], [op |-> "delete351", login |-> L, new |-> <<>>] >>,
                  << [op |-> "create349", login |-> L, new |-> <<>>], [op |-> "delete349", login |-> L, new |-> <<>>] >>,
                  << [op |-> "delete351", login |-> L, new |-> <<>>] >> }
-ReqsAcct == {Rq("acct", o, Absent, Absent, Absent, Absent, Absent) @@ [ops |-> sq] : o \in {0, 1}, sq \in UNION {AcctSeqs(L) : L \in AcctLogins}}
+(* tmp: where $TMPDIR points while the account request runs (0 an existing directory outside the trees, 1 nowhere) *)
+ReqsAcct == {Rq("acct", o, Absent, Absent, Absent, Absent, Absent) @@ [ops |-> sq, tmp |-> 0] : o \in {0, 1}, sq \in UNION {AcctSeqs(L) : L \in AcctLogins}}
+            \cup {Rq("acct", 0, Absent, Absent, Absent, Absent, Absent) @@ [ops |-> sq, tmp |-> 1] : sq \in UNION {AcctSeqs(L) : L \in {A, <<46,46,47,120>>, <<>>}}}
 
 (* short histories for what creates links or relocates entries: make an alias in a nested folder, then move / rename
    the alias, its target or the folder that holds it, then read through it (list, get-info, download, folder download) *)
